@@ -186,4 +186,28 @@ theorem parsems_eq (cls : Char → CClass) (i : Info) (v : Token) : Gen.P.parsem
             simp [bind_ok, bind_err, bind_eq, pure_eq, h2]
       · simp [bind_err]
 
+/-- `parser._assign_hms` as written now = `PM.assignHms` -/
+theorem assignHms_eq (cls : Char → CClass) (i : Info) (res : Res) (t : Token) (hms : Nat) :
+    Gen.P.assignHms cls i res t hms = PM.assignHms cls res t hms := by
+  unfold Gen.P.assignHms PM.assignHms
+  rw [toDecimal_eq]
+  cases hv : PM.toDecimal cls t with
+  | error e => simp [bind_err, bind_eq]
+  | ok v =>
+    simp only [bind_ok, bind_eq, pure_eq, parseMinSec_eq, parsems_eq]
+    rcases hms with _ | _ | _ | n
+    · simp only [if_true]
+      cases hr : v.rem1 with
+      | error e => simp [bind_err]
+      | ok r => cases hz : r.isZero <;> simp [bind_ok, hz, hr]
+    · simp
+      cases PM.parseMinSec v with
+      | error e => simp [bind_err]
+      | ok p => rcases p with ⟨m, s⟩; simp [bind_ok]
+    · simp
+      cases PM.parsems cls t with
+      | error e => simp [bind_err]
+      | ok p => rcases p with ⟨m, s⟩; simp [bind_ok]
+    · simp [bind_ok]
+
 end PGen
